@@ -145,17 +145,25 @@ mod std_build {
         let r: Result<MmapRegion<()>, MmapRegionError> = match entry {
             0 => MmapRegion::build(fo.clone(), size, prot, flags),
             1 => {
-                let mut b = MmapRegionBuilder::new(size).with_mmap_prot(prot).with_mmap_flags(flags);
+                let mut b = MmapRegionBuilder::new(size);
+                if t.chance(1, 3) {
+                    // a setter called again replaces the earlier value
+                    b = b.with_mmap_prot(libc::PROT_READ | libc::PROT_WRITE | libc::PROT_EXEC).with_mmap_flags(libc::MAP_PRIVATE | libc::MAP_ANONYMOUS | libc::MAP_NORESERVE | libc::MAP_FIXED).with_hugetlbfs(true);
+                    cx.nt("builder_setters_called_twice");
+                    hint = Some(true);
+                }
+                b = b.with_mmap_prot(prot).with_mmap_flags(flags);
                 if let Some(f) = fo.clone() {
                     b = b.with_file_offset(f);
                 }
-                hint = match t.below(3) {
+                let h2 = match t.below(3) {
                     0 => None,
                     1 => Some(false),
                     _ => Some(true),
                 };
-                if let Some(h) = hint {
+                if let Some(h) = h2 {
                     b = b.with_hugetlbfs(h);
+                    hint = Some(h);
                 }
                 b.build()
             }
